@@ -37,7 +37,9 @@ META = {
         "Trusted: Coq kernel+vm_compute; gen/c03_table.py (ast scan of apply_patch literals, instance observation "
         "through the monitor); the hand model Model/NameProtocol.v, tied to hydrogens/structures.py by trace inclusion "
         "on monitored real runs (per unit call: emitted create/remove/rename sequence equal, final names equal) incl. "
-        "runs whose is_hbond answers are randomly vetoed; the monitor (monkeypatches Residue.add_atom/remove_atom/"
+        "runs whose is_hbond answers are randomly vetoed or coin-flipped, and on DRIVEN walks: the model's reachable ORDERED name states "
+        "are enumerated in Coq (explore_p) and real Flip/Alcoholic/Water/Carboxylic objects are taken along a label path to each "
+        "(oracles scripted), then completed - coverage reached/total is in the evidence distribution; the monitor (monkeypatches Residue.add_atom/remove_atom/"
         "rename_atom and the protocol methods); oracle assumption: Carboxylic.finalize finds a hydrogen with energy "
         "< 999.99 whenever hlist is non-empty."
     ),
@@ -202,6 +204,11 @@ def build_structures(ctx):
     for j, a in enumerate(polar):
         wat += B.waters(1, around=pep + wat, chain="W", start=j + 1, near=a, near_dist=2.9, rng=nrng)
     out.append(("fliprich", pep + wat, {}))
+    # 2c. a hydroxyl/thiol that accepts two N-H donors (both lone pairs built) / donates and accepts
+    for tgt, on, bn in (("SER", "OG", "CB"), ("THR", "OG1", "CB"), ("TYR", "OH", "CZ"), ("CYS", "SG", "CB")):
+        for dist in (2.8, 3.0, 3.2):
+            out.append((f"twodonor-{tgt}-{dist}", hydroxyl_with_donors(tgt, on, bn, 2, nrng, dist=dist), {}))
+        out.append((f"donacc-{tgt}", hydroxyl_with_donors(tgt, on, bn, 1, nrng, water=True), {}))
     # 3b. carboxylic acids with one C-O bond 0.12 A longer (Carboxylic.__init__ longflag paths)
     from dataclasses import replace as _rep
 
@@ -246,6 +253,89 @@ def build_structures(ctx):
     out.append(("missing-heavy", miss, {"missing": True}))
     out.append(("extra+missing", with_extra(miss), {"extra": [("A", 2, "XX1"), ("A", 2, "HX9")], "missing": True}))
     return out
+
+
+
+def _unit(v):
+    import numpy as np
+
+    return v / np.linalg.norm(v)
+
+
+def _rodrigues(axis, deg):
+    import math
+
+    import numpy as np
+
+    a = _unit(axis)
+    th = math.radians(deg)
+    K = np.array([[0, -a[2], a[1]], [a[2], 0, -a[0]], [-a[1], a[0], 0]])
+    return np.eye(3) + math.sin(th) * K + (1 - math.cos(th)) * (K @ K)
+
+
+def _rot_to(a, b):
+    import math
+
+    import numpy as np
+
+    a, b = _unit(a), _unit(b)
+    v = np.cross(a, b)
+    c = float(a @ b)
+    if np.linalg.norm(v) < 1e-9:
+        if c > 0:
+            return np.eye(3)
+        p = np.cross(a, [1.0, 0, 0]) if abs(a[0]) < 0.9 else np.cross(a, [0, 1.0, 0])
+        return _rodrigues(p, 180)
+    return _rodrigues(v, math.degrees(math.atan2(np.linalg.norm(v), c)))
+
+
+def hydroxyl_with_donors(target, oname, bname, ndonors, nrng, water=False, dist=2.9):
+    """GLY-X-GLY whose hydroxyl/thiol atom receives `ndonors` backbone N-H donors: GLY-GLY-GLY
+    strands placed so that the middle amide N sits 2.9 A from the oxygen on one of its free
+    tetrahedral positions with the N-H bisector pointing at it (azimuth and spin scanned for
+    the largest clearance); optionally a water next to the oxygen as well."""
+    import math
+
+    import numpy as np
+
+    from harness import builder as B
+
+    pep = B.build_peptide(["GLY", target, "GLY"], chain="A")
+    og = [a for a in pep if a.resseq == 2 and a.name == oname][0]
+    cb = [a for a in pep if a.resseq == 2 and a.name == bname][0]
+    axis = _unit(og.xyz - cb.xyz)
+    perp0 = _unit(np.cross(axis, [1.0, 0, 0]) if abs(axis[0]) < 0.9 else np.cross(axis, [0, 1.0, 0]))
+    th = math.radians(70.5)
+    placed = list(pep)
+    phi0 = None
+    for si in range(ndonors):
+        s = B.build_peptide(["GLY", "GLY", "GLY"], chain="BC"[si])
+        n = [a for a in s if a.resseq == 2 and a.name == "N"][0].xyz
+        cp = [a for a in s if a.resseq == 1 and a.name == "C"][0].xyz
+        ca = [a for a in s if a.resseq == 2 and a.name == "CA"][0].xyz
+        bis = _unit(_unit(n - cp) + _unit(n - ca))
+        base = np.array([a.xyz for a in placed])
+        best = None
+        for phi in range(0, 360, 15):
+            if phi0 is not None and abs(((phi - phi0 + 180) % 360) - 180) < 100:
+                continue
+            d = axis * math.cos(th) + (_rodrigues(axis, phi) @ perp0) * math.sin(th)
+            r0 = _rot_to(bis, -d)
+            for psi in range(0, 360, 20):
+                rm = _rodrigues(d, psi) @ r0
+                tv = og.xyz + dist * d - rm @ n
+                xs = np.array([rm @ a.xyz + tv for a in s])
+                dd = np.sqrt(((xs[:, None, :] - base[None, :, :]) ** 2).sum(-1))
+                md = np.sort(dd.ravel())[1]
+                if best is None or md > best[0]:
+                    best = (md, phi, rm, tv)
+        _md, phi, rm, tv = best
+        if phi0 is None:
+            phi0 = phi
+        placed += [a.at(rm @ a.xyz + tv) for a in s]
+    if water:
+        placed += B.waters(1, around=placed, chain="W", near=og, near_dist=2.8, rng=nrng)
+    return placed
 
 
 OPTION_SETS = [
@@ -443,6 +533,270 @@ def trace_term(rec):
     return term, None
 
 
+
+# --------------------------------------------------------------------------
+# driven walks: every reachable ORDERED name state of the model, on real objects
+
+SCRIPT = {"hb": None, "chb": None, "angle_name": None, "energy_O": None}
+
+
+class _Stub:
+    """accobj of try_both whose acceptor side fails (forces the undo branch)."""
+
+    def try_acceptor(self, acc, donor):
+        return False
+
+
+def model_paths(ginfo):
+    """{(kind term, tuple(base))-> [ per start: [(labels, names, fixed)] ]} from the Coq machine."""
+    insts = [i for i in ginfo["instances"] if i[0].endswith("/I") or i[1] == "KWat"]
+    terms = []
+    for n, k, b, e in insts:
+        kk = f"({k})" if " " in k else k
+        terms.append(f'join "#" (instance_paths (mkI {S(n)} {kk} {L(map(S, b))} {L(map(S, e))}))')
+    outs = core.run_cases("C03paths", HEADER, terms, chunk=8)
+    res = {}
+    for (n, k, b, e), o in zip(insts, outs):
+        starts = []
+        for part in o.split("#"):
+            lst = []
+            for ent in part.split("|") if part else []:
+                lab, _, nm = ent.partition("=")
+                fixed = nm.endswith("!")
+                lst.append(([x for x in lab.split(",") if x], nm.rstrip("!").split(), fixed))
+            starts.append(lst)
+        res[(k.split()[0], n.split("/")[0])] = starts
+    return res
+
+
+def _partner(routines, residue):
+    from pdb2pqr import aa
+
+    rs = routines.biomolecule.residues
+    i = rs.index(residue)
+    cands = [rs[j] for j in (i + 1, i - 1) if 0 <= j < len(rs)] + list(rs)
+    for c in cands:
+        if c is not residue and isinstance(c, aa.Amino) and c.has_atom("N") and c.has_atom("O") and c.name == "GLY":
+            n, o = c.get_atom("N"), c.get_atom("O")
+            n.hdonor = 1
+            o.hacceptor = 1
+            return c, n, o
+    raise RuntimeError("no partner residue")
+
+
+def exec_label(obj, kind, lab, routines, parity):
+    """Perform one model label on the real object with the oracle answers scripted."""
+    import types
+
+    res = obj.residue
+    pres, pN, pO = _partner(routines, res)
+    head, _, arg = lab.partition(":")
+    try:
+        if kind == "Flip":
+            if head == "X":
+                at = res.get_atom(arg)
+                if at is not None:
+                    obj.fix_flip(at)
+            else:
+                obj.finalize()
+        elif kind in ("Alcoholic", "Water"):
+            ox = obj.atomlist[0]
+            if head == "F":
+                obj.finalize()
+            elif arg == "Skip":
+                pass
+            elif head == "D":
+                if arg == "Fail" and parity:
+                    SCRIPT["hb"] = True  # donor side succeeds, partner's acceptor side fails: undo in try_both
+                    obj.try_both(ox, pO, _Stub())
+                else:
+                    SCRIPT["hb"] = arg == "Ok"
+                    obj.try_donor(ox, pO)
+            else:
+                SCRIPT["hb"] = arg == "Ok"
+                obj.try_acceptor(ox, pN)
+        else:
+            if head == "A":
+                hyds = list(obj.hlist)
+                tgt = hyds[0 if arg == "first" else 1] if len(hyds) >= 2 else None
+                fake = types.SimpleNamespace(hdonor=1, coords=(tgt.coords if tgt is not None else pN.coords), residue=pres, name="N", bonds=[])
+                SCRIPT["chb"] = True
+                obj.try_acceptor(obj.atomlist[0], fake)
+            elif head == "X":
+                d = res.get_atom(arg)
+                if d is not None and d.bonds and not res.fixed:
+                    SCRIPT["hb"] = True
+                    SCRIPT["angle_name"] = arg
+                    obj.fix(d.bonds[0], pO)
+            else:
+                b = res.get_atom(arg) if arg else None
+                SCRIPT["energy_O"] = b.bonds[0].name if (b is not None and b.bonds) else None
+                obj.finalize()
+    finally:
+        SCRIPT.update(hb=None, chb=None, angle_name=None, energy_O=None)
+
+
+def run_driven(ctx, atoms, ff, assign):
+    """A pdb2pqr run whose optimize_hydrogens is replaced by scripted walks:
+    assign(kind, resname, names_after_init, reskey) -> label list (or None)."""
+    import c03_table as G
+    from harness import builder as B
+    from pdb2pqr import hydrogens
+    from pdb2pqr.hydrogens import optimize as hopt
+    from pdb2pqr.hydrogens import structures as hs
+
+    saved = []
+
+    def patch(o, name, new):
+        saved.append((o, name, o.__dict__[name]))
+        setattr(o, name, new)
+
+    o_hb, o_chb = hopt.Optimize.is_hbond, hs.Carboxylic.is_carboxylic_hbond
+    o_ang = hopt.Optimize.__dict__["get_hbond_angle"].__func__
+    o_en = hopt.Optimize.__dict__["get_pair_energy"].__func__
+    walk = {}
+
+    def is_hbond(self, donor, acc):
+        return o_hb(self, donor, acc) if SCRIPT["hb"] is None else SCRIPT["hb"]
+
+    def is_chb(self, donor, acc):
+        return o_chb(self, donor, acc) if SCRIPT["chb"] is None else SCRIPT["chb"]
+
+    def angle(a1, a2, a3):
+        if SCRIPT["hb"] is None and SCRIPT["chb"] is None:
+            return o_ang(a1, a2, a3)
+        if SCRIPT["angle_name"] is not None:
+            return 5.0 if getattr(a3, "name", None) == SCRIPT["angle_name"] else 100.0
+        return 5.0
+
+    def energy(d, a):
+        if SCRIPT["energy_O"] is None:
+            return o_en(d, a)
+        return -1.0 if SCRIPT["energy_O"] in (getattr(d, "name", None), getattr(a, "name", None)) else 0.0
+
+    def optimize(self):
+        kinds = {hs.Flip: "Flip", hs.Alcoholic: "Alcoholic", hs.Water: "Water", hs.Carboxylic: "Carboxylic"}
+        for n, obj in enumerate(self.optlist):
+            kind = kinds.get(type(obj))
+            if kind is None:
+                continue
+            res = obj.residue
+            key = f"{res.name} {res.chain_id} {res.res_seq}"
+            labels = assign(kind, res.name, [a.name for a in res.atoms], key)
+            if labels is None:
+                continue
+            walk[key] = labels
+            for j, lab in enumerate(labels):
+                exec_label(obj, kind, lab, self, (n + j) % 2 == 1)
+        for obj in self.optlist:
+            obj.complete()
+
+    patch(hopt.Optimize, "is_hbond", is_hbond)
+    patch(hs.Carboxylic, "is_carboxylic_hbond", is_chb)
+    patch(hopt.Optimize, "get_hbond_angle", staticmethod(angle))
+    patch(hopt.Optimize, "get_pair_energy", staticmethod(energy))
+    patch(hydrogens.HydrogenRoutines, "optimize_hydrogens", optimize)
+    text = B.to_pdb(atoms)
+    args = [f"--ff={ff}", "--keep-chain"]
+    mon = G.Monitor()
+    try:
+        with mon.active():
+            r = B.run_pdb2pqr(text, args, workdir=ctx.scratch_dir())
+    finally:
+        for o, name, old in reversed(saved):
+            setattr(o, name, old)
+        SCRIPT.update(hb=None, chb=None, angle_name=None, energy_O=None)
+    r.update(args=args, free=False, mon=mon, pdb_text=text, walk=walk)
+    return r
+
+
+def driven_structure():
+    """GLY-X-GLY for every optimisable X (carboxylic acids also with one C-O bond
+    0.12 A longer, for the longflag starts) + waters with and without hydrogens."""
+    from harness import builder as B
+
+    xs = ["SER", "THR", "TYR", "CYS", "ASN", "GLN", "HIS", "HID", "HIE", "ASH", "GLH", "ASH", "GLH", "ASH", "GLH"]
+    atoms = []
+    letters = "ABCDEFGHIJKLMNOPQRSTUVWXYZ"
+    for k, x in enumerate(xs):
+        pep = B.build_peptide(["GLY", x, "GLY"], chain=letters[k], origin=(0.0, 35.0 * k, 0.0))
+        which = {11: "1", 12: "1", 13: "2", 14: "2"}.get(k)
+        if which:
+            new = []
+            for a in pep:
+                if a.name in ("OD" + which, "OE" + which):
+                    c = [y for y in pep if y.resseq == a.resseq and y.name == ("CG" if a.name.startswith("OD") else "CD")][0]
+                    v = a.xyz - c.xyz
+                    a = a.at(c.xyz + v * (1.0 + 0.12 / float((v ** 2).sum() ** 0.5)))
+                new.append(a)
+            pep = new
+        atoms += pep
+    wat = B.waters(2, around=atoms, chain="W")
+    wat += B.waters(1, around=atoms + wat, chain="V", hydrogens=True)
+    return atoms + wat
+
+
+def driven_walks(ctx, ginfo, process):
+    """Drive real objects along a model path to every reachable ordered name state,
+    then complete/cleanup; traces go through the acceptor, results through the join."""
+    paths = model_paths(ginfo)
+    atoms = driven_structure()
+    nruns = max(len(lst) for starts in paths.values() for lst in starts)
+    if not ctx.thorough:
+        nruns = min(nruns, 40)
+    reached, total, actual = {}, {}, {}
+    for (k, rn), starts in paths.items():
+        total[k] = total.get(k, 0) + sum(len(lst) for lst in starts)
+    kind_of = {"Flip": "KFlip", "Alcoholic": "KAlc", "Water": "KWat", "Carboxylic": "KCarb"}
+    for rix in range(nruns):
+        def assign(kind, resname, names, key, _r=rix):
+            cands = paths.get((kind_of[kind], resname if kind != "Water" else "HOH"))
+            if cands is None and kind == "Water":
+                cands = paths.get(("KWat", "WAT"))
+            if not cands:
+                return None
+            if kind == "Water":
+                cands = [lst for (kk, nn), sts in paths.items() if kk == "KWat" for lst in sts]
+            for lst in cands:
+                if lst and lst[0][1] == names:
+                    if _r < len(lst):
+                        reached.setdefault(kind, set()).add((resname, tuple(lst[_r][1]), lst[_r][2]))
+                        return lst[_r][0]
+                    return None
+            return None
+
+        targets = {}
+
+        def assign2(kind, resname, names, key, _a=assign):
+            lab = _a(kind, resname, names, key)
+            if lab is not None:
+                targets[key] = lab
+            return lab
+
+        r = run_driven(ctx, atoms, FFS[rix % 6], assign2)
+        ctx.count("driven-walk-runs")
+        if r["exc"] is not None:
+            ctx.count("driven-walk-run-raised:" + type(r["exc"]).__name__)
+        # which ordered state did the real object actually have when complete was called?
+        want = {}
+        for (kk, rn), sts in paths.items():
+            for lst in sts:
+                for labs, nm, fx in lst:
+                    want.setdefault((kk, tuple(labs)), []).append(tuple(nm))
+        for rec in r["mon"].order:
+            k2 = f"{rec.resname} {rec.residue.chain_id} {rec.residue.res_seq}"
+            if k2 not in targets:
+                continue
+            pre = [c for c in rec.calls if c.method != "complete"]
+            before = tuple(pre[-1].names_after) if pre and pre[-1].names_after else None
+            if before in want.get((kind_of[rec.kind], tuple(targets[k2])), []):
+                actual.setdefault(rec.kind, set()).add((rec.resname, before))
+        process(r, "driven", atoms, {}, [], FFS[rix % 6], ("driven", rix))
+    for k in sorted(total):
+        kk = [x for x, v in kind_of.items() if v == k][0]
+        ctx.cov["distribution"][f"driven-paths:{kk}"] = f"{len(reached.get(kk, ()))} of {total[k]} model states (internal-position instances) targeted, {len(actual.get(kk, ()))} reached exactly (same ordered atom list) on real objects before complete"
+    return False
+
 # --------------------------------------------------------------------------
 # search: outer join
 
@@ -495,6 +849,8 @@ def outer_join(ctx, tag, atoms, meta, r, opts, ff):
 
     nfail = 0
     case = {"tag": tag, "args": r["args"], "ff": ff, "opts": opts, "pdb": r["pdb_text"]}
+    if r.get("walk"):
+        case["walk"] = r["walk"]  # scripted protocol walk: {residue: label path}; replay re-drives it
 
     def fail(sig, what):
         nonlocal nfail
@@ -665,6 +1021,8 @@ def run(ctx):
     for i, (tag, atoms, meta) in enumerate(structs):
         for j, opts in enumerate(OPTION_SETS):
             full = tag.startswith(("all20", "variants", "carboxyl", "extra", "missing", "fliprich"))
+            if tag.startswith(("twodonor", "donacc")) and opts not in ([], ["--nodebump"]):
+                continue
             if not ctx.thorough and not full and (i + j) % 3 != 0 and opts not in ([],):
                 continue
             if "PH" in opts and any(a.resname in ("A", "C", "G", "U", "T", "DA", "DC", "DG", "DT") for a in atoms):
@@ -673,7 +1031,7 @@ def run(ctx):
             plan.append((tag, atoms, meta, opts, ff, None))
     # vetoed-oracle walks on the optimisable-rich structures
     nveto = 60 if ctx.thorough else 18
-    rich = [s for s in structs if s[0].startswith(("optrich", "carboxyl", "fliprich"))]
+    rich = [s for s in structs if s[0].startswith(("optrich", "carboxyl", "fliprich", "twodonor", "donacc"))]
     for k in range(nveto):
         tag, atoms, meta = rich[k % len(rich)]
         plan.append((tag, atoms, meta, [] if k % 3 != 1 else ["--nodebump"], FFS[k % 6], k))
@@ -681,22 +1039,8 @@ def run(ctx):
     for k in range(40 if ctx.thorough else 18):
         tag, atoms, meta = small[k % len(small)]
         plan.append((tag, atoms, meta, [], FFS[k % 6], 101 + 2 * k))  # odd ids: free-oracle walks
-    terms, owners = [], []
-    budget = 150 if not ctx.thorough else 1500
-    import random
-
-    for tag, atoms, meta, opts, ff, veto in plan:
-        if ctx.elapsed() > budget:
-            ctx.count("skipped-for-time")
-            continue
-        vr = random.Random(f"veto:{ctx.seed}:{veto}") if veto is not None else None
-        if vr is not None:
-            vr.free = veto % 2 == 1  # odd walks: every is_hbond answer is a coin flip (angles always pass)
-        phr = random.Random(f"ph:{ctx.seed}:{tag}")
-        r = run_structure(ctx, atoms, opts, ff, veto=vr, phrng=phr)
-        key = (tag.split(":")[0], tuple(opts), ff, veto)
-        ctx.count("opts:" + (" ".join(opts) or "default"))
-        ctx.count("ff:" + ff)
+    def process(r, tag, atoms, meta, opts, ff, key):
+        nonlocal corr_broken
         nf = outer_join(ctx, tag, atoms, meta, r, opts, ff)
         finished = r["exc"] is None and r["result"] is not None
         ctx.evaluated(key, finished and "--clean" not in opts and "--assign-only" not in opts)
@@ -707,6 +1051,8 @@ def run(ctx):
                 ctx.count("protocol-object:" + rec.kind)
                 term, why = trace_term(rec)
                 case = {"structure": tag, "args": r["args"], "residue": rec.key, "kind": rec.kind, "calls": [c.as_dict() for c in rec.calls][:30], "pdb": r["pdb_text"]}
+                if r.get("walk"):
+                    case["walk"] = r["walk"]
                 if term is None:
                     corr_broken = True
                     ctx.cov["correspondence_disagreements"] += 1
@@ -725,6 +1071,31 @@ def run(ctx):
                                 ctx.broke("correspondence-broken", "optimisation object outside the proved instance table", f"{inst[0]} {inst[1]} {inst[2]}", case)
                 except G.GenError:
                     pass
+    terms, owners = [], []
+    budget = 150 if not ctx.thorough else 1500
+    import random
+
+    for tag, atoms, meta, opts, ff, veto in plan:
+        if ctx.elapsed() > budget:
+            ctx.count("skipped-for-time")
+            continue
+        vr = random.Random(f"veto:{ctx.seed}:{veto}") if veto is not None else None
+        if vr is not None:
+            vr.free = veto % 2 == 1  # odd walks: every is_hbond answer is a coin flip (angles always pass)
+        phr = random.Random(f"ph:{ctx.seed}:{tag}")
+        r = run_structure(ctx, atoms, opts, ff, veto=vr, phrng=phr)
+        key = (tag.split(":")[0], tuple(opts), ff, veto)
+        ctx.count("opts:" + (" ".join(opts) or "default"))
+        ctx.count("ff:" + ff)
+        process(r, tag, atoms, meta, opts, ff, key)
+
+    # driven walks: real objects taken to every reachable ordered name state of the model
+    try:
+        if driven_walks(ctx, ginfo, process):
+            corr_broken = True
+    except core.CoqEvalError as e:
+        corr_broken = True
+        ctx.broke("correspondence-broken", "path enumeration failed", str(e)[:1500])
     try:
         outs = core.run_cases("C03tr", HEADER, terms, chunk=60)
         for (rec, case), o in zip(owners, outs):
@@ -754,10 +1125,26 @@ def run(ctx):
 def replay(ctx, data):
     from harness import builder as B
 
-    case = data["case"]
+    case = data.get("case") or {}
     if "pdb" not in case or "args" not in case:
         print("replay: case has no input (proof/correspondence record)")
         return 0
+    if case.get("walk"):
+        # scripted protocol walk on the same structure: re-drive it and inspect the final model
+        sys.path.insert(0, str(core.VERIF / "gen"))
+        walk = case["walk"]
+        atoms = driven_structure()
+        ff = [a for a in case["args"] if a.startswith("--ff=")][0][5:]
+        r = run_driven(ctx, atoms, ff, lambda kind, resname, names, key: walk.get(key))
+        bad = 0
+        if r["result"] is not None:
+            for res in r["result"][2].residues:
+                ns = [a.name for a in res.atoms]
+                if len(ns) != len(set(ns)) or any(PLACEHOLDER.search(n) or n == "FLIP" for n in ns):
+                    print("replay: FAILS final model residue", res, ns)
+                    bad = 1
+        print("replay: driven walk", "FAILS" if bad else "passes", "exc=", repr(r["exc"]))
+        return bad
     r = B.run_pdb2pqr(case["pdb"], [a for a in case["args"]], workdir=ctx.scratch_dir())
     print("replay: exc=", repr(r["exc"]), "pqr lines=", len((r["pqr_text"] or "").splitlines()))
     sig = case.get("signature", {})
